@@ -351,10 +351,10 @@ func (g *G) strExpr(d int) *m.E {
 		e := &m.E{K: "interp"}
 		n := g.intn("parts", 1, 3)
 		for i := 0; i < n; i++ {
-			e.A = append(e.A, m.EStr(pickS(g, "ilit", []string{"", "a", " b ", "x:", "é"})))
+			e.A = append(e.A, m.EStr(pickS(g, "ilit", []string{"", "a", " b ", "x:", "é", "{", "}", "}}{{"})))
 			e.A = append(e.A, g.Expr(pickS(g, "ity", []Ty{TStr, TInt}), d-1))
 		}
-		e.A = append(e.A, m.EStr(pickS(g, "ilit", []string{"", ".", "!"})))
+		e.A = append(e.A, m.EStr(pickS(g, "ilit", []string{"", ".", "!", "}", "}}", " %}"})))
 		return e
 	case 4:
 		return m.ECond(g.Expr(TBool, d-1), g.Expr(TStr, d-1), g.Expr(TStr, d-1))
